@@ -1,2 +1,3 @@
 import Paroxy.Props.C08
 import Paroxy.Props.C15
+import Paroxy.Props.C01
